@@ -414,6 +414,38 @@ pub fn gen_random(seed: u64, idx: u64) -> Plan {
         }
     }
     let mut accept_errs = Vec::new();
+    if r.chance(1, 10) {
+        // A descriptor shortage: every accept() fails for a while (a flood
+        // holds all descriptors).  Whoever connects once it is over must be
+        // served as promptly as ever.
+        let at = r.range(0, 200);
+        let dur = *r.pick(&[150u64, 1_000, 7_000, 30_000, 90_000, 90_000, 200_000, 600_000]);
+        accept_errs.push(AcceptErrPlan { at_ms: at, kind: format!("shortage:{dur}") });
+        let mut cs = Vec::new();
+        for i in 0..r.usize_in(1, 3) {
+            let mut c = blank_conn(14_000 + i as u16);
+            c.start_ms = at + dur + r.range(150, 2_000);
+            let w = WorkReq { nonce, steps: r.range(0, 2) as u32, step_ms: r.range(0, 50), panic_at: 0, resp_bytes: 10, body: None, chunked: None };
+            nonce += 1;
+            c.steps.push(Step::Send { data: Blob(w.bytes()), completes: Some(0) });
+            c.steps.push(Step::AwaitResponses { count: 1, max_ms: 35_000 });
+            c.reqs.push(w.plan());
+            if tls {
+                c.kind = ConnKind::Tls;
+            }
+            cs.push(c);
+        }
+        return Plan {
+            property: "C18".into(),
+            seed: mix(seed, idx),
+            server: ServerPlan { mode, body_limit: 1024, api: ApiKind::All, rt_override: None, tls },
+            conns: cs,
+            shutdown: None,
+            accept_errs,
+            final_health: true,
+            note: format!("random idx={idx} tls={tls} descriptor shortage {dur} ms"),
+        };
+    }
     if r.chance(1, 8) {
         // Connections that are reset while they wait in the listen queue: the
         // accept loop is in its 100 ms back-off after an EMFILE-like error
